@@ -1,7 +1,7 @@
 #!/bin/bash
 # usage: tools/runall.sh [tier] [seed]  — runs every check, prints one line each
 tier=${1:-quick}; seed=${2:-1}
-cd /verif
+cd "$(dirname "$(readlink -f "$0")")/.."
 for p in C01 C02 C03 C04 C05 C06 C07 C08 C09 C10 C11 C12 C13 C14 C15 C16 C17 C18; do
   s=$(date +%s)
   out=$(./check $p --tier $tier --seed $seed 2>&1); rc=$?
